@@ -81,7 +81,45 @@ theorem C17_again_keeps (buf : List Bytes) (evs : List Ev) (h : NoNL buf) :
   have : (readlineBuf buf).1 = [] := readlineBuf_noNL_empty h
   simp [readlineSocket, this, go]
 
+/-- **Refinement to the specification**: take any stream of socket events that ends with the peer closing — any
+    fragmentation into chunks, time-outs anywhere — and call `readline()` until it reports end-of-stream (any number
+    of calls that gets there).  The lines returned, in order, are *exactly* the received byte stream cut after each
+    newline (`splitNL`), the unterminated tail, if any, last: nothing lost, duplicated, reordered or cut elsewhere. -/
+theorem C17_refines_split (n : Nat) (evs : List Ev) (hne : Ev.eof ∉ evs)
+    (hdone : Res.eofR ∈ (calls n [] (evs ++ [.eof])).1) :
+    lineBytes (calls n [] (evs ++ [.eof])).1 = splitNL (evBytes evs) := by
+  have hok : BufOk ([] : List Bytes) := by simp [BufOk]
+  obtain ⟨ls, tail, h1, h2, h3, _⟩ := calls_shape n [] (evs ++ [.eof]) hok
+  obtain ⟨c1, _⟩ := C17_calls_conserve n [] (evs ++ [.eof]) hok
+  obtain ⟨f1, f2⟩ := calls_eofR_final n [] (evs ++ [.eof]) hok hdone
+  -- what is left unread is just the end-of-stream marker
+  have hrem : evBytes (calls n [] (evs ++ [.eof])).2.2 = [] := by
+    obtain ⟨pre, hpre⟩ := calls_suffix n [] (evs ++ [.eof])
+    cases hr : (calls n [] (evs ++ [.eof])).2.2 with
+    | nil => simp [hr] at f2
+    | cons e es =>
+      have he : e = .eof := by simpa [hr] using f2
+      subst he
+      rw [hr] at hpre
+      have := suffix_eof_last evs pre es hne hpre
+      subst this; simp [evBytes]
+  have hbytes : ls.flatten ++ tail = evBytes evs := by
+    have hl := lineBytes_flatten (calls n [] (evs ++ [.eof])).1
+    rw [h1] at hl
+    have hc := c1
+    simp only [f1, hrem, List.flatten_nil, List.append_nil, List.nil_append, resBytes, evBytes_append_eof] at hc
+    rw [← hc, ← hl]
+    by_cases ht : tail.isEmpty = true
+    · have : tail = [] := by simpa using ht
+      simp [this]
+    · simp [ht]
+  rw [h1, ← hbytes]
+  exact (split_unique ls tail h2 h3).symm
+
 /-! Non-vacuity: a concrete fragmented stream `ab\nc` `d\n` `e` + EOF. -/
 example : (calls 5 [] [.chunk 97 [98, 10, 99], .again, .chunk 100 [10], .chunk 101 [], .eof]).1
     = [.line [97, 98, 10], .empty, .line [99, 100, 10], .line [101], .eofR] := by decide
 example : BufOk [] ∧ NoNL [[99]] := by simp [BufOk, NoNL, NL]
+example : lineBytes (calls 5 [] [.chunk 97 [98, 10, 99], .again, .chunk 100 [10], .chunk 101 [], .eof]).1
+    = splitNL [97, 98, 10, 99, 100, 10, 101] ∧ splitNL [97, 98, 10, 99, 100, 10, 101] = [[97, 98, 10], [99, 100, 10], [101]] := by
+  decide
